@@ -92,6 +92,16 @@ add("C22", "TLC exhaustive on Distribute.tla + trace validation of the per-rank 
     "bit-identical on every rank for every task count.",
     TRUST + "the simulated communicator with mpi4py's pickling semantics (no libmpi in the sandbox; the property text asks for real MPI runs).")
 
+add("C15", "TLC exhaustive on CGPair.tla (eager and compiled control skeletons on the same predicate valuations) + trace validation of real runs of both solvers (CGTrace.tla) with harness-computed ground truth",
+    "The eager and the compiled CG are transcribed decision by decision (CGPair.tla); TLC explores every predicate valuation sequence for maxiter 3/4 and "
+    "all stopping configurations (resnorm/absdelta/miniter/x0/raise): under the positive definite environment same verdict, iteration count and "
+    "position and the verdict law incl. convergence exactly at the limit; under any environment the non-positive-definite law (failure when asked to, "
+    "steepest-descent point iff the first direction has negative curvature). Both real solvers run on generated pytree systems (HPD with condition up to "
+    "e^6, indefinite, negative definite, singular; convergence exactly at the iteration limit; with/without x0); their per-iteration reports and the "
+    "curvature of every wrapped matrix application are validated against the skeletons by CGTrace.tla and the final event carries ground truth from "
+    "the returned solution (true residual, energy vs start, steepest-descent step, agreement of the variants).",
+    TRUST + "predicates within 64 ulp of their threshold are left to TLC; tolerances rtol 1e-9 (agreement), 1e-6 (residual).")
+
 
 def main():
     props = [json.loads(l) for l in open(os.path.join(HERE, "properties.jsonl"))]
